@@ -22,7 +22,7 @@ class AnalysisError(Exception):
 # --------------------------------------------------------------------------- pyx
 
 _CTYPE = (r"(?:unsigned\s+)?(?:double|float|int|long|short|char|size_t|Py_ssize_t|"
-          r"bint|object)\s*(?:\[[^\]]*\])?")
+          r"bint|object|tuple|list|dict|str|bytes|void)\s*(?:\[[^\]]*\])?")
 
 
 def desugar_pyx(src: str):
